@@ -43,7 +43,7 @@ func (k Keeper) UnlockUnbondedContinuousVestingAccountCoins(ctx sdk.Context, own
 		if coin.Amount.GT(sdk.ZeroInt()) {
 			orignalVesting := orignalVestings.AmountOf(coin.Denom)
 			vestingCoin := vestingCoins.AmountOf(coin.Denom)
-			originalVestingDiffDec := sdk.NewDecFromInt(coin.Amount).Mul(sdk.NewDecFromInt(orignalVesting)).Quo(sdk.NewDecFromInt(vestingCoin))
+			originalVestingDiffDec := sdk.NewDecFromInt(coin.Amount).Mul(sdk.NewDecFromInt(orignalVesting)).QuoTruncate(sdk.NewDecFromInt(vestingCoin))
 			originalVestingDiff := originalVestingDiffDec.TruncateInt()
 			vestingAcc.OriginalVesting = vestingAcc.OriginalVesting.Sub(sdk.NewCoin(coin.Denom, originalVestingDiff))
 			if vestingCoin.Sub(vestingAcc.GetVestingCoins(ctx.BlockTime()).AmountOf(coin.Denom)).LT(coin.Amount) {
